@@ -75,28 +75,86 @@ def _exc(e):
 # one_hot_encode / characters
 # ----------------------------------------------------------------------------------------------
 
-def check_ohe(case):
-    """case: {'kind': 'ohe', 'alphabet': [chars], 'ignore': [chars], 's': str, 'dtype': name}"""
+ACGT = ['A', 'C', 'G', 'T']
+
+
+def _shared(ctx, case, key, value):
+    """the list / dict object handed to the function under test: a fresh copy, or - inside a call history with
+    case['shared'] - ONE object per history whose content the caller rewrites between the calls"""
+    if ctx is not None and case.get('shared'):
+        obj = ctx[key]
+        obj.clear()
+        if isinstance(obj, dict):
+            obj.update(value)
+        else:
+            obj.extend(value)
+        return obj
+    return dict(value) if isinstance(value, dict) else list(value)
+
+
+def _ohe_kwargs(case, ctx, dt=None):
+    """keyword arguments of a one_hot_encode call; case['omit'] lists the arguments left to their defaults
+    (alphabet: must be ACGT, ignore: must be ['N'], dtype: the result dtype is then not asserted)"""
+    omit = case.get('omit') or ()
+    kw = {}
+    if 'alphabet' in omit:
+        assert list(case['alphabet']) == ACGT
+    else:
+        kw['alphabet'] = _shared(ctx, case, 'alist', list(case['alphabet']))
+    if 'ignore' in omit:
+        assert list(case['ignore']) == ['N']
+    else:
+        kw['ignore'] = _shared(ctx, case, 'ilist', list(case['ignore']))
+    if dt is not None and 'dtype' not in omit:
+        kw['dtype'] = dt
+    return kw
+
+
+def _ohe_mismatch(X, alphabet, s):
+    """None when X[c, p] == 1 <=> s[p] == alphabet[c] (and 0 otherwise), else a short description"""
+    A, L = len(alphabet), len(s)
+    if L <= 64:
+        exp = [[1 if s[p] == alphabet[c] else 0 for p in range(L)] for c in range(A)]
+        got = X.to(torch.float64).tolist() if L else [[] for _ in range(A)]
+        if got != [[float(v) for v in row] for row in exp]:
+            return 'got %s expected %s' % (got, exp)
+        return None
+    codes = numpy.array([ord(ch) for ch in s], dtype=numpy.int64)
+    exp = numpy.stack([(codes == ord(a)) for a in alphabet]).astype(numpy.float64)
+    got = X.to(torch.float64).numpy()
+    if not numpy.array_equal(got, exp):
+        bad = numpy.nonzero((got != exp).any(axis=0))[0]
+        p = int(bad[0])
+        return '%d column(s) differ, first at position %d (%r): got %s expected %s' % (len(bad), p, s[p], got[:, p].tolist(), exp[:, p].tolist())
+    return None
+
+
+def check_ohe(case, ctx=None):
+    """case: {'kind': 'ohe', 'alphabet': [chars], 'ignore': [chars], 's': str, 'dtype': name,
+    optional 'omit': [argument names left to their defaults], 'variants': bool (also decode with force=True and
+    from a contiguous copy), 'shared' / 'scribble': only inside a call history (see check_history)}"""
     out = []
     alphabet, ignore, s, dt = list(case['alphabet']), list(case['ignore']), case['s'], DT[case['dtype']]
     A, L = len(alphabet), len(s)
+    omit = case.get('omit') or ()
     try:
-        X = one_hot_encode(s, alphabet=list(alphabet), dtype=dt, ignore=list(ignore))
+        kw = _ohe_kwargs(case, ctx, dt)
+        X = one_hot_encode(s, **kw)
     except Exception as e:
         return ['one_hot_encode raised %s on a string over alphabet+ignore' % _exc(e)]
     if not isinstance(X, torch.Tensor) or tuple(X.shape) != (A, L):
         return ['one_hot_encode shape %s, expected %s' % (tuple(getattr(X, 'shape', ())), (A, L))]
-    if X.dtype != dt:
+    if X.dtype != dt and 'dtype' not in omit:
         out.append('one_hot_encode dtype %s, requested %s' % (X.dtype, dt))
-    exp = [[1 if s[p] == alphabet[c] else 0 for p in range(L)] for c in range(A)]
-    got = X.to(torch.float64).tolist() if L else [[] for _ in range(A)]
-    if got != [[float(v) for v in row] for row in exp]:
-        out.append('one_hot_encode entries differ from [s[p] == alphabet[c]]: got %s expected %s' % (got, exp))
+    bad = _ohe_mismatch(X, alphabet, s)
+    if bad:
+        out.append('one_hot_encode entries differ from [s[p] == alphabet[c]]: ' + bad)
         return out
     has_ign = any(ch in ignore for ch in s)
     exp_n = ''.join('N' if ch in ignore else ch for ch in s)
+    ckw = {} if 'alphabet' in omit else {'alphabet': kw['alphabet']}
     try:
-        t = characters(X, alphabet=list(alphabet), allow_N=True)
+        t = characters(X, allow_N=True, **ckw)
         if t != exp_n:
             out.append('characters(one_hot_encode(s), allow_N=True) = %r, expected %r' % (t, exp_n))
     except Exception as e:
@@ -104,11 +162,28 @@ def check_ohe(case):
         out.append('characters(allow_N=True) raised %s on one_hot_encode(%r)' % (_exc(e), s))
     if not has_ign:
         try:
-            t2 = characters(X, alphabet=list(alphabet))
+            t2 = characters(X, **ckw)
             if t2 != s:
                 out.append('characters(one_hot_encode(s)) = %r, expected %r' % (t2, s))
         except Exception as e:
             out.append('characters raised %s on one_hot_encode(%r)' % (_exc(e), s))
+    if case.get('variants'):
+        # the same decoding from a contiguous copy of X (one_hot_encode returns a transposed view) and with
+        # force=True (no column of a one-hot encoding of an ignore-free string has a tie, so force is immaterial)
+        try:
+            Xc = X.clone().contiguous()
+            t3 = characters(Xc, allow_N=True, **ckw)
+            if t3 != exp_n:
+                out.append('characters(contiguous copy of X, allow_N=True) = %r, expected %r' % (t3, exp_n))
+            t4 = characters(X, allow_N=True, force=True, **ckw)
+            if t4 != exp_n:
+                out.append('characters(X, allow_N=True, force=True) = %r, expected %r' % (t4, exp_n))
+            if not has_ign:
+                t5 = characters(X, force=True, **ckw)
+                if t5 != s:
+                    out.append('characters(X, force=True) = %r, expected %r' % (t5, s))
+        except Exception as e:
+            out.append('characters (contiguous copy / force=True) raised %s on one_hot_encode(%r)' % (_exc(e), s))
     if t is not None and t == exp_n and 'N' not in alphabet:
         # other direction: the decoded string (N for all-zero columns) encodes back to X
         try:
@@ -117,18 +192,34 @@ def check_ohe(case):
                 out.append('one_hot_encode(characters(X), ignore=[N]) != X')
         except Exception as e:
             out.append('one_hot_encode(characters(X)) raised %s' % _exc(e))
+    _after(ctx, case, X)
     return out
 
 
-def check_reject(case):
-    """case: {'kind': 'reject', 'alphabet', 'ignore', 's'}: s contains a character outside both sets"""
+def _after(ctx, case, R):
+    """inside a call history: either overwrite the returned tensor in place (a later call must not see it) or
+    remember it with a private copy (a later call must not change it)"""
+    if ctx is None or not isinstance(R, torch.Tensor):
+        return
+    if case.get('scribble'):
+        try:
+            R.fill_(1)
+        except Exception:
+            pass
+    else:
+        ctx['keep'].append((ctx.get('step'), R, R.clone()))
+
+
+def check_reject(case, ctx=None):
+    """case: {'kind': 'reject', 'alphabet', 'ignore', 's', optional 'omit'}: s contains a character outside both sets"""
     alphabet, ignore, s = list(case['alphabet']), list(case['ignore']), case['s']
     assert any(ch not in alphabet and ch not in ignore for ch in s)
     try:
-        X = one_hot_encode(s, alphabet=list(alphabet), ignore=list(ignore))
+        X = one_hot_encode(s, **_ohe_kwargs(case, ctx))
     except Exception:
         return []
-    return ['one_hot_encode accepted %r (alphabet %r, ignore %r) and returned shape %s' % (s, alphabet, ignore, tuple(X.shape))]
+    sh = s if len(s) <= 40 else '%s...(%d characters, outside: %s)' % (s[:20], len(s), [(p, ch) for p, ch in enumerate(s) if ch not in alphabet and ch not in ignore][:3])
+    return ['one_hot_encode accepted %r (alphabet %r, ignore %r) and returned shape %s' % (sh, alphabet, ignore, tuple(X.shape))]
 
 
 def _rand_alphabet(rng, size, lo=1):
